@@ -415,6 +415,7 @@ class QuotientFilter:
 
             if remove_orig_idx:
                 self._is_occupied[q] = 0
+            self._elements_added -= 1
             return
 
         # find the minimum idx for the cluster; will be needed to determine if elements are in cluster start positions.
@@ -446,6 +447,7 @@ class QuotientFilter:
 
         if remove_orig_idx:
             self._is_occupied[q] = 0
+        self._elements_added -= 1
 
         # now figure out if things are in the correct place....
         cur_quot = -1
